@@ -287,6 +287,21 @@ func FaultJobs(rng *rand.Rand, thorough bool) []FaultJob {
 				Fault: &Fault{Kind: "cut", Off: rng.Intn(len(stream))}}, "c08-wfail"})
 		}
 	}
+	// REGRESSION WITNESS (runs in every tier): frames whose message ID does not fit their payload, as a
+	// single flipped ID byte produces. A work-done frame with a signal or error payload must fail
+	// that run (before commit 1454f2e the lenient payload decode turned it into an empty SUCCESS);
+	// a signal / error frame with a work-done payload must be dropped, the real answer still counts.
+	for _, t := range []string{"pipe", "buf"} {
+		out = append(out, FaultJob{Job{Session: unhealthy(hs("", 3,
+			[]DOp{{Op: "exec", R: "r1", From: true}, {Op: "exec", R: "r2", From: true}, {Op: "joinall"}, {Op: "exec", R: "r3"}, {Op: "join", R: "r3"}, {Op: "close"}},
+			[]SOp{{Op: "expectws", R: "r1"}, {Op: "expectws", R: "r2"}, {Op: "sigasdone", R: "r1"}, {Op: "doneassig", R: "r2", X: 7}, {Op: "done", R: "r2", X: 2},
+				{Op: "expectws", R: "r3"}, {Op: "errasdone", R: "r3", SF: true}, {Op: "expectdone"}}), "f-typeflip-done"),
+			Transport: t, ChunkSeed: rng.Int63(), WriteFailAfter: -1, TimeoutMs: 1500}, "c08-typeflip"})
+		out = append(out, FaultJob{Job{Session: unhealthy(hs("", 3,
+			[]DOp{{Op: "exec", R: "r1"}, {Op: "exec", R: "r2"}, {Op: "joinall"}, {Op: "close"}},
+			[]SOp{{Op: "expectws", R: "r1"}, {Op: "expectws", R: "r2"}, {Op: "doneaserr", R: "r1", X: 8}, {Op: "errasdone", R: "r2"}, {Op: "done", R: "r1", X: 1}, {Op: "expectdone"}}), "f-typeflip-err"),
+			Transport: t, ChunkSeed: rng.Int63(), WriteFailAfter: -1, TimeoutMs: 1500}, "c08-typeflip"})
+	}
 	// the write side fails while the peer stays silent and keeps its output open until Close is over
 	silent := Session{Name: "f-wfail-silent", Ver: 3,
 		Dir: []DOp{{Op: "rs"}, {Op: "exec", R: "r1"}, {Op: "join", R: "r1"}, {Op: "close"}, {Op: "mark", N: 1}},
